@@ -225,11 +225,11 @@ def raiseSites4 : List Site := [
   ⟨848, 854, 215, 3, [563], true, true, [164], false⟩,  -- 208 Operators/Clause.py:215
   ⟨848, 854, 217, 3, [246], true, true, [1, 29, 164], false⟩,  -- 209 Operators/Clause.py:217
   ⟨848, 854, 222, 3, [274], true, true, [1, 29, 164], false⟩,  -- 210 Operators/Clause.py:222
-  ⟨848, 855, 256, 3, [563], true, true, [164], false⟩,  -- 211 Operators/Clause.py:256
-  ⟨848, 855, 260, 3, [183], true, true, [80, 164], false⟩,  -- 212 Operators/Clause.py:260
-  ⟨848, 855, 265, 3, [180], true, true, [108, 80, 164], false⟩,  -- 213 Operators/Clause.py:265
-  ⟨848, 855, 272, 3, [265], true, true, [80, 164, 263], false⟩,  -- 214 Operators/Clause.py:272
-  ⟨848, 855, 279, 3, [251], true, true, [29, 164], false⟩,  -- 215 Operators/Clause.py:279
+  ⟨848, 855, 258, 3, [563], true, true, [164], false⟩,  -- 211 Operators/Clause.py:258
+  ⟨848, 855, 262, 3, [183], true, true, [80, 164], false⟩,  -- 212 Operators/Clause.py:262
+  ⟨848, 855, 267, 3, [180], true, true, [108, 80, 164], false⟩,  -- 213 Operators/Clause.py:267
+  ⟨848, 855, 274, 3, [265], true, true, [80, 164, 263], false⟩,  -- 214 Operators/Clause.py:274
+  ⟨848, 855, 281, 3, [251], true, true, [29, 164], false⟩,  -- 215 Operators/Clause.py:281
   ⟨856, 857, 167, 3, [170], true, true, [164], false⟩,  -- 216 Operators/Comparison.py:167
   ⟨856, 858, 181, 3, [175], true, true, [29, 164], false⟩,  -- 217 Operators/Comparison.py:181
   ⟨856, 859, 244, 3, [576], true, true, [418, 276, 164, 419, 280], false⟩,  -- 218 Operators/Comparison.py:244
@@ -242,14 +242,14 @@ def raiseSites4 : List Site := [
   ⟨860, 861, 97, 3, [293], true, true, [29, 164], false⟩,  -- 225 Operators/Conditional.py:97
   ⟨860, 861, 99, 3, [295], true, true, [164, 114], false⟩,  -- 226 Operators/Conditional.py:99
   ⟨860, 861, 105, 3, [297], true, true, [164], false⟩,  -- 227 Operators/Conditional.py:105
-  ⟨860, 862, 181, 3, [321], true, true, [164], false⟩,  -- 228 Operators/Conditional.py:181
-  ⟨860, 862, 190, 3, [324], true, true, [29, 164], false⟩,  -- 229 Operators/Conditional.py:190
-  ⟨860, 862, 192, 3, [326], true, true, [164], false⟩,  -- 230 Operators/Conditional.py:192
-  ⟨860, 862, 212, 3, [328], true, true, [29, 164], false⟩,  -- 231 Operators/Conditional.py:212
-  ⟨860, 862, 234, 3, [170], true, true, [164], false⟩,  -- 232 Operators/Conditional.py:234
-  ⟨860, 862, 236, 3, [331], true, true, [29, 164], false⟩,  -- 233 Operators/Conditional.py:236
-  ⟨860, 862, 239, 3, [333], true, true, [164], false⟩,  -- 234 Operators/Conditional.py:239
-  ⟨860, 862, 245, 3, [335], true, true, [164], false⟩,  -- 235 Operators/Conditional.py:245
+  ⟨860, 862, 190, 3, [321], true, true, [164], false⟩,  -- 228 Operators/Conditional.py:190
+  ⟨860, 862, 199, 3, [324], true, true, [29, 164], false⟩,  -- 229 Operators/Conditional.py:199
+  ⟨860, 862, 201, 3, [326], true, true, [164], false⟩,  -- 230 Operators/Conditional.py:201
+  ⟨860, 862, 221, 3, [328], true, true, [29, 164], false⟩,  -- 231 Operators/Conditional.py:221
+  ⟨860, 862, 243, 3, [170], true, true, [164], false⟩,  -- 232 Operators/Conditional.py:243
+  ⟨860, 862, 245, 3, [331], true, true, [29, 164], false⟩,  -- 233 Operators/Conditional.py:245
+  ⟨860, 862, 248, 3, [333], true, true, [164], false⟩,  -- 234 Operators/Conditional.py:248
+  ⟨860, 862, 254, 3, [335], true, true, [164], false⟩,  -- 235 Operators/Conditional.py:254
   ⟨863, 864, 27, 3, [180], true, true, [108, 80, 164], false⟩,  -- 236 Operators/General.py:27
   ⟨863, 865, 70, 3, [579], true, true, [534], false⟩,  -- 237 Operators/General.py:70
   ⟨863, 866, 100, 3, [202], true, true, [201], false⟩,  -- 238 Operators/General.py:100
@@ -361,8 +361,8 @@ def raiseSites6 : List Site := [
   ⟨927, 928, 112, 2, [156], true, true, [154, 148, 152, 151, 44], false⟩,  -- 340 duckdb_transpiler/Config/config.py:112
   ⟨929, 930, 732, 2, [704], true, true, [164], false⟩,  -- 341 duckdb_transpiler/Transpiler/__init__.py:732
   ⟨929, 931, 1619, 3, [447], true, true, [164, 44], false⟩,  -- 342 duckdb_transpiler/Transpiler/__init__.py:1619
-  ⟨929, 932, 3662, 3, [180], true, true, [108, 80, 164], false⟩,  -- 343 duckdb_transpiler/Transpiler/__init__.py:3662
-  ⟨929, 933, 3851, 3, [624], true, true, [], false⟩,  -- 344 duckdb_transpiler/Transpiler/__init__.py:3851
+  ⟨929, 932, 3671, 3, [180], true, true, [108, 80, 164], false⟩,  -- 343 duckdb_transpiler/Transpiler/__init__.py:3671
+  ⟨929, 933, 3860, 3, [624], true, true, [], false⟩,  -- 344 duckdb_transpiler/Transpiler/__init__.py:3860
   ⟨934, 935, 140, 3, [475], true, true, [474, 164, 472], false⟩,  -- 345 duckdb_transpiler/Transpiler/operators.py:140
   ⟨936, 937, 64, 2, [653], true, true, [651, 44], false⟩,  -- 346 duckdb_transpiler/io/_execution.py:64
   ⟨936, 938, 81, 2, [712], true, true, [164], false⟩,  -- 347 duckdb_transpiler/io/_execution.py:81
